@@ -43,18 +43,42 @@ func newCipherGeneric(key []byte) (cipher.Block, error) {
 }
 
 func (sm4 *sm4Cipher) Encrypt(dst, src []byte) {
+	if len(src) < BlockSize {
+		panic("crypto/sm4: input not full block")
+	}
+	if len(dst) < BlockSize {
+		panic("crypto/sm4: output not full block")
+	}
 	cryptoBlock(src[:BlockSize], dst[:BlockSize], &sm4.enc)
 }
 
 func (sm4 *sm4Cipher) Decrypt(dst, src []byte) {
+	if len(src) < BlockSize {
+		panic("crypto/sm4: input not full block")
+	}
+	if len(dst) < BlockSize {
+		panic("crypto/sm4: output not full block")
+	}
 	cryptoBlock(src[:BlockSize], dst[:BlockSize], &sm4.dec)
 }
 
 func encryptX2(sm4 *sm4Cipher, dst, src []byte) {
+	if len(src) < BlockSize<<1 {
+		panic("crypto/sm4: input not two full blocks")
+	}
+	if len(dst) < BlockSize<<1 {
+		panic("crypto/sm4: output not two full blocks")
+	}
 	cryptoBlockX2(src[:BlockSize<<1], dst[:BlockSize<<1], &sm4.enc)
 }
 
 func decryptX2(sm4 *sm4Cipher, dst, src []byte) {
+	if len(src) < BlockSize<<1 {
+		panic("crypto/sm4: input not two full blocks")
+	}
+	if len(dst) < BlockSize<<1 {
+		panic("crypto/sm4: output not two full blocks")
+	}
 	cryptoBlockX2(src[:BlockSize<<1], dst[:BlockSize<<1], &sm4.dec)
 }
 
